@@ -44,3 +44,4 @@ impl<'a> Rd<'a> {
         self.b.len().saturating_sub(self.p)
     }
 }
+pub mod td;
